@@ -346,9 +346,9 @@ def _(eng, m, g, a):
         v.items.append(x)
 @model(r"^std::boxed::Box::new$|^Box::new$|^std::boxed::Box::<.*>::new$")
 def _(eng, m, g, a): return mk_box(a[0])
-@model(r"^std::boxed::Box::new_uninit$")
+@model(r"^(?:std::boxed::)?Box::new_uninit$")
 def _(eng, m, g, a): return mk_box(Agg("MaybeUninit", [UNIT, Agg("ManuallyDrop", [Agg("MaybeDangling", [None])])]))
-@model(r"^std::boxed::box_assume_init_into_vec_unsafe$")
+@model(r"^(?:std::boxed::)?box_assume_init_into_vec_unsafe$")
 def _(eng, m, g, a):
     v = deref(a[0])
     if isinstance(v, Agg) and v.tag == "MaybeUninit": return v.f[1].f[0].f[0]
